@@ -1,8 +1,10 @@
 import Proofs.Lemmas.Quat
+import Proofs.Lemmas.GroupAux
 import Proofs.Lemmas.So3Exp
 import Mathlib.Tactic.Positivity
 import Mathlib.Tactic.NormNum
 import Mathlib.Analysis.SpecialFunctions.Exp
+import Mathlib.Analysis.Real.Pi.Bounds
 /-!
 # C03 — group product, inverse, identity and point action obey the group laws
 
@@ -58,15 +60,6 @@ theorem SO3_matrix_orthogonal (X : Quat ℝ) (hX : SO3.Valid X) :
   rw [← SO3_matrix_conj, ← SO3_matrix_mul X X.conj hX (SO3_valid_inv X hX), SO3_mul_inv X hX, SO3_matrix_one]
 
 /-! ## SE3 -/
-@[ext] theorem SE3.ext' {a b : SE3 ℝ} (ht : a.t = b.t) (hq : a.q = b.q) : a = b := by
-  cases a; cases b; simp_all
-@[ext] theorem RxSO3.ext' {a b : RxSO3 ℝ} (hq : a.q = b.q) (hs : a.s = b.s) : a = b := by
-  cases a; cases b; simp_all
-@[ext] theorem Sim3.ext' {a b : Sim3 ℝ} (ht : a.t = b.t) (hq : a.q = b.q) (hs : a.s = b.s) : a = b := by
-  cases a; cases b; simp_all
-
-theorem vadd_assoc (a b c : Vec3 ℝ) : (a.add b).add c = a.add (b.add c) := by ext <;> lie_unfold <;> ring
-
 theorem SE3_mul_assoc (X Y Z : SE3 ℝ) (hX : SE3.Valid X) (hY : SE3.Valid Y) :
     SE3Mul (SE3Mul X Y) Z = SE3Mul X (SE3Mul Y Z) := by
   unfold SE3Mul
@@ -205,6 +198,82 @@ theorem Sim3_matrix_blocks (X : Sim3 ℝ) :
   simp only [List.cons.injEq, and_true]
   (repeat' apply And.intro) <;> ring
 
+/-! ## 4×4 homomorphism, RxSO3 matrix / homogeneous action, Sim3 `Act4` at `w = 1, 0`
+(clauses an independent review found stated for SO3 / SE3 only) -/
+
+theorem Sim3_act4_one (X : Sim3 ℝ) (p : Vec3 ℝ) : Sim3Act4 X p 1 = (Sim3Act X p, 1) := by
+  unfold Sim3Act4 Sim3Act; simp only [Prod.mk.injEq, and_true]; ext <;> lie_unfold <;> ring
+theorem Sim3_act4_zero (X : Sim3 ℝ) (p : Vec3 ℝ) : Sim3Act4 X p 0 = ((X.q.act p).smul X.s, 0) := by
+  unfold Sim3Act4; simp only [Prod.mk.injEq, and_true]; ext <;> lie_unfold <;> ring
+theorem RxSO3_act4_eq (X : RxSO3 ℝ) (p : Vec3 ℝ) (w : ℝ) : RxSO3Act4 X p w = (RxSO3Act X p, w) := rfl
+theorem SO3_act4_mul (X Y : Quat ℝ) (hX : SO3.Valid X) (hY : SO3.Valid Y) (p : Vec3 ℝ) (w : ℝ) :
+    SO3Act4 (X.mul Y) p w = SO3Act4 X (SO3Act4 Y p w).1 (SO3Act4 Y p w).2 := by
+  unfold SO3Act4; simp only [Prod.mk.injEq, and_true]; exact Quat.act_mul X Y hX hY p
+theorem RxSO3_act4_mul (X Y : RxSO3 ℝ) (hX : RxSO3.Valid X) (hY : RxSO3.Valid Y) (p : Vec3 ℝ) (w : ℝ) :
+    RxSO3Act4 (RxSO3Mul X Y) p w = RxSO3Act4 X (RxSO3Act4 Y p w).1 (RxSO3Act4 Y p w).2 := by
+  unfold RxSO3Act4 RxSO3Mul; simp only [Prod.mk.injEq, and_true]
+  rw [Quat.act_mul X.q Y.q hX.1 hY.1, Quat.act_smul]; ext <;> lie_unfold <;> ring
+
+theorem RxSO3_matrix_mulVec (X : RxSO3 ℝ) (p : Vec3 ℝ) (w : ℝ) :
+    (RxSO3matrix X).mulVec [p.x, p.y, p.z, w] =
+      [(RxSO3Act4 X p w).1.x, (RxSO3Act4 X p w).1.y, (RxSO3Act4 X p w).1.z, (RxSO3Act4 X p w).2] := by
+  simp only [RxSO3matrix, matrix4, RxSO3Act4, DMat.mulVec, DVec.dot, DVec.sum, List.map, List.zipWith, List.foldl]
+  lie_unfold
+  simp only [List.cons.injEq, and_true]
+  refine ⟨?_, ?_, ?_, ?_⟩ <;> ring
+/-- blocks of the RxSO3 `matrix()`: `s·R`, zero translation column, `(0 0 0 1)` -/
+theorem RxSO3_matrix_blocks (X : RxSO3 ℝ) :
+    RxSO3matrix X =
+      [ ((SO3matrix X.q).r0.smul X.s).toList ++ [0], ((SO3matrix X.q).r1.smul X.s).toList ++ [0],
+        ((SO3matrix X.q).r2.smul X.s).toList ++ [0], [0, 0, 0, 1] ] := by
+  simp only [RxSO3matrix, matrix4, RxSO3Act4, SO3matrix, Vec3.toList, List.cons_append, List.nil_append]
+  lie_unfold
+  simp only [List.cons.injEq, and_true]
+  (repeat' apply And.intro) <;> first | ring | (simp <;> ring)
+
+/-- **`matrix()` is a homomorphism — SE3** -/
+theorem SE3_matrix_mul (X Y : SE3 ℝ) (hX : SE3.Valid X) (hY : SE3.Valid Y) :
+    SE3matrix (SE3Mul X Y) = DMat.mul (SE3matrix X) (SE3matrix Y) := by
+  rw [SE3_matrix_blocks, SE3_matrix_blocks X, SE3_matrix_blocks Y]
+  simp only [SE3Mul]
+  rw [SO3_matrix_mul X.q Y.q hX hY]
+  have ht := SO3_matrix_mulVec X.q Y.t
+  rw [← ht]
+  simp only [DMat.mul, DMat.transpose, DMat.ncols, DMat.col, Vec3.toList, List.cons_append, List.nil_append,
+    List.length_cons, List.length_nil, List.range, List.range.loop, List.map, List.getD_cons_zero, List.getD_cons_succ,
+    DVec.dot, DVec.sum, List.zipWith, List.foldl]
+  lie_unfold
+  simp only [List.cons.injEq, and_true]
+  (repeat' apply And.intro) <;> ring
+
+/-- **`matrix()` is a homomorphism — RxSO3** -/
+theorem RxSO3_matrix_mul (X Y : RxSO3 ℝ) (hX : RxSO3.Valid X) (hY : RxSO3.Valid Y) :
+    RxSO3matrix (RxSO3Mul X Y) = DMat.mul (RxSO3matrix X) (RxSO3matrix Y) := by
+  rw [RxSO3_matrix_blocks, RxSO3_matrix_blocks X, RxSO3_matrix_blocks Y]
+  simp only [RxSO3Mul]
+  rw [SO3_matrix_mul X.q Y.q hX.1 hY.1]
+  simp only [DMat.mul, DMat.transpose, DMat.ncols, DMat.col, Vec3.toList, List.cons_append, List.nil_append,
+    List.length_cons, List.length_nil, List.range, List.range.loop, List.map, List.getD_cons_zero, List.getD_cons_succ,
+    DVec.dot, DVec.sum, List.zipWith, List.foldl]
+  lie_unfold
+  simp only [List.cons.injEq, and_true]
+  (repeat' apply And.intro) <;> ring
+
+/-- **`matrix()` is a homomorphism — Sim3** -/
+theorem Sim3_matrix_mul (X Y : Sim3 ℝ) (hX : Sim3.Valid X) (hY : Sim3.Valid Y) :
+    Sim3matrix (Sim3Mul X Y) = DMat.mul (Sim3matrix X) (Sim3matrix Y) := by
+  rw [Sim3_matrix_blocks, Sim3_matrix_blocks X, Sim3_matrix_blocks Y]
+  simp only [Sim3Mul]
+  rw [SO3_matrix_mul X.q Y.q hX.1 hY.1]
+  have ht := SO3_matrix_mulVec X.q Y.t
+  rw [← ht]
+  simp only [DMat.mul, DMat.transpose, DMat.ncols, DMat.col, Vec3.toList, List.cons_append, List.nil_append,
+    List.length_cons, List.length_nil, List.range, List.range.loop, List.map, List.getD_cons_zero, List.getD_cons_succ,
+    DVec.dot, DVec.sum, List.zipWith, List.foldl]
+  lie_unfold
+  simp only [List.cons.injEq, and_true]
+  (repeat' apply And.intro) <;> ring
+
 /-! ## Invariants over arbitrarily long operation histories
 
 `HOp` is one update applied to an element: product with a valid element on either side, inverse, or the
@@ -292,6 +361,200 @@ theorem history_valid (eps : ℝ) (h0 : 0 ≤ eps) (h1 : eps ≤ 1) (ops : List 
   have := gen ops hops X 0 (by simp [show X.normSq = 1 from hX])
   simpa using this
 
+
+/-- scales stay positive under products, inverses and retractions (`exp σ > 0`) -/
+theorem RxSO3_scale_retr_pos (eps : ℝ) (X : RxSO3 ℝ) (hX : 0 < X.s) (a : rxso3 ℝ) :
+    0 < (RxSO3Retr eps X a).s := by
+  simp only [RxSO3Retr, RxSO3Mul, rxso3Exp, exp_real]; exact mul_pos (Real.exp_pos _) hX
+theorem Sim3_scale_retr_pos (eps : ℝ) (X : Sim3 ℝ) (hX : 0 < X.s) (a : sim3 ℝ) :
+    0 < (Sim3Retr eps X a).s := by
+  simp only [Sim3Retr, Sim3Mul, sim3Exp, rxso3Exp, exp_real]; exact mul_pos (Real.exp_pos _) hX
+
+
+/-! ### the same for SE3: the quaternion block of every SE3 operation is the quaternion operation -/
+inductive SE3Op where
+  | mulL (Y : SE3 ℝ) : SE3Op
+  | mulR (Y : SE3 ℝ) : SE3Op
+  | inv : SE3Op
+  | retr (a : se3 ℝ) : SE3Op
+
+def SE3Op.ok : SE3Op → Prop
+  | .mulL Y => SE3.Valid Y
+  | .mulR Y => SE3.Valid Y
+  | _ => True
+
+noncomputable def SE3Op.apply (eps : ℝ) (X : SE3 ℝ) : SE3Op → SE3 ℝ
+  | .mulL Y => SE3Mul Y X
+  | .mulR Y => SE3Mul X Y
+  | .inv => SE3Inv X
+  | .retr a => SE3Retr eps X a
+
+def SE3Op.toH : SE3Op → HOp
+  | .mulL Y => .mulL Y.q
+  | .mulR Y => .mulR Y.q
+  | .inv => .inv
+  | .retr a => .retr a.phi
+
+theorem SE3Op.apply_q (eps : ℝ) (X : SE3 ℝ) (op : SE3Op) : (op.apply eps X).q = op.toH.apply eps X.q := by
+  cases op <;> rfl
+
+theorem SE3Op.fold_q (eps : ℝ) (ops : List SE3Op) : ∀ X : SE3 ℝ,
+    (ops.foldl (SE3Op.apply eps) X).q = (ops.map SE3Op.toH).foldl (HOp.apply eps) X.q := by
+  induction ops with
+  | nil => intro X; rfl
+  | cons op rest ih => intro X; simp only [List.foldl_cons, List.map_cons]; rw [ih, SE3Op.apply_q]
+
+/-- **Validity over any SE3 history**: the quaternion block stays within `(1+eps⁶)ⁿ − 1` of unit norm after any
+list of products (either side), inverses and retractions, `n` = number of retractions. -/
+theorem SE3_history_valid (eps : ℝ) (h0 : 0 ≤ eps) (h1 : eps ≤ 1) (ops : List SE3Op) (hops : ∀ op ∈ ops, op.ok)
+    (X : SE3 ℝ) (hX : SE3.Valid X) :
+    |(ops.foldl (SE3Op.apply eps) X).q.normSq - 1|
+      ≤ (1 + eps ^ 6) ^ (ops.countP fun o => o.toH.isRetr) - 1 := by
+  rw [SE3Op.fold_q]
+  have hq : SO3.Valid X.q := hX
+  have hok : ∀ o ∈ ops.map SE3Op.toH, o.ok := by
+    intro o ho
+    rw [List.mem_map] at ho
+    obtain ⟨op, hop, rfl⟩ := ho
+    have := hops op hop
+    cases op <;> first | trivial | exact this
+  have := history_valid eps h0 h1 (ops.map SE3Op.toH) hok X.q hq
+  rwa [List.countP_map] at this
+
+/-! ### the same for RxSO3: the quaternion block of every RxSO3 operation is the quaternion operation -/
+inductive RxSO3Op where
+  | mulL (Y : RxSO3 ℝ) : RxSO3Op
+  | mulR (Y : RxSO3 ℝ) : RxSO3Op
+  | inv : RxSO3Op
+  | retr (a : rxso3 ℝ) : RxSO3Op
+
+def RxSO3Op.ok : RxSO3Op → Prop
+  | .mulL Y => RxSO3.Valid Y
+  | .mulR Y => RxSO3.Valid Y
+  | _ => True
+
+noncomputable def RxSO3Op.apply (eps : ℝ) (X : RxSO3 ℝ) : RxSO3Op → RxSO3 ℝ
+  | .mulL Y => RxSO3Mul Y X
+  | .mulR Y => RxSO3Mul X Y
+  | .inv => RxSO3Inv X
+  | .retr a => RxSO3Retr eps X a
+
+def RxSO3Op.toH : RxSO3Op → HOp
+  | .mulL Y => .mulL Y.q
+  | .mulR Y => .mulR Y.q
+  | .inv => .inv
+  | .retr a => .retr a.phi
+
+theorem RxSO3Op.apply_q (eps : ℝ) (X : RxSO3 ℝ) (op : RxSO3Op) : (op.apply eps X).q = op.toH.apply eps X.q := by
+  cases op <;> rfl
+
+theorem RxSO3Op.fold_q (eps : ℝ) (ops : List RxSO3Op) : ∀ X : RxSO3 ℝ,
+    (ops.foldl (RxSO3Op.apply eps) X).q = (ops.map RxSO3Op.toH).foldl (HOp.apply eps) X.q := by
+  induction ops with
+  | nil => intro X; rfl
+  | cons op rest ih => intro X; simp only [List.foldl_cons, List.map_cons]; rw [ih, RxSO3Op.apply_q]
+
+/-- **Validity over any RxSO3 history**: the quaternion block stays within `(1+eps⁶)ⁿ − 1` of unit norm after any
+list of products (either side), inverses and retractions, `n` = number of retractions. -/
+theorem RxSO3_history_valid (eps : ℝ) (h0 : 0 ≤ eps) (h1 : eps ≤ 1) (ops : List RxSO3Op) (hops : ∀ op ∈ ops, op.ok)
+    (X : RxSO3 ℝ) (hX : RxSO3.Valid X) :
+    |(ops.foldl (RxSO3Op.apply eps) X).q.normSq - 1|
+      ≤ (1 + eps ^ 6) ^ (ops.countP fun o => o.toH.isRetr) - 1 := by
+  rw [RxSO3Op.fold_q]
+  have hq : SO3.Valid X.q := hX.1
+  have hok : ∀ o ∈ ops.map RxSO3Op.toH, o.ok := by
+    intro o ho
+    rw [List.mem_map] at ho
+    obtain ⟨op, hop, rfl⟩ := ho
+    have := hops op hop
+    cases op <;> first | trivial | exact this.1
+  have := history_valid eps h0 h1 (ops.map RxSO3Op.toH) hok X.q hq
+  rwa [List.countP_map] at this
+
+/-- **Scale stays positive over any RxSO3 history** (exact arithmetic): products of positive scales, reciprocals
+and `exp σ` factors. -/
+theorem RxSO3_history_scale_pos (eps : ℝ) (ops : List RxSO3Op) (hops : ∀ op ∈ ops, op.ok) :
+    ∀ X : RxSO3 ℝ, 0 < X.s → 0 < (ops.foldl (RxSO3Op.apply eps) X).s := by
+  induction ops with
+  | nil => intro X h; exact h
+  | cons op rest ih =>
+    intro X hX
+    simp only [List.foldl_cons]
+    apply ih (fun o ho => hops o (by simp [ho]))
+    have hop := hops op (by simp)
+    cases op with
+    | mulL Y => exact mul_pos (hop : RxSO3.Valid Y).2 hX
+    | mulR Y => exact mul_pos hX (hop : RxSO3.Valid Y).2
+    | inv => simp only [RxSO3Op.apply, RxSO3Inv, k_real, Nat.cast_one]; exact one_div_pos.mpr hX
+    | retr a => exact RxSO3_scale_retr_pos eps X hX a
+
+/-! ### the same for Sim3: the quaternion block of every Sim3 operation is the quaternion operation -/
+inductive Sim3Op where
+  | mulL (Y : Sim3 ℝ) : Sim3Op
+  | mulR (Y : Sim3 ℝ) : Sim3Op
+  | inv : Sim3Op
+  | retr (a : sim3 ℝ) : Sim3Op
+
+def Sim3Op.ok : Sim3Op → Prop
+  | .mulL Y => Sim3.Valid Y
+  | .mulR Y => Sim3.Valid Y
+  | _ => True
+
+noncomputable def Sim3Op.apply (eps : ℝ) (X : Sim3 ℝ) : Sim3Op → Sim3 ℝ
+  | .mulL Y => Sim3Mul Y X
+  | .mulR Y => Sim3Mul X Y
+  | .inv => Sim3Inv X
+  | .retr a => Sim3Retr eps X a
+
+def Sim3Op.toH : Sim3Op → HOp
+  | .mulL Y => .mulL Y.q
+  | .mulR Y => .mulR Y.q
+  | .inv => .inv
+  | .retr a => .retr a.phi
+
+theorem Sim3Op.apply_q (eps : ℝ) (X : Sim3 ℝ) (op : Sim3Op) : (op.apply eps X).q = op.toH.apply eps X.q := by
+  cases op <;> rfl
+
+theorem Sim3Op.fold_q (eps : ℝ) (ops : List Sim3Op) : ∀ X : Sim3 ℝ,
+    (ops.foldl (Sim3Op.apply eps) X).q = (ops.map Sim3Op.toH).foldl (HOp.apply eps) X.q := by
+  induction ops with
+  | nil => intro X; rfl
+  | cons op rest ih => intro X; simp only [List.foldl_cons, List.map_cons]; rw [ih, Sim3Op.apply_q]
+
+/-- **Validity over any Sim3 history**: the quaternion block stays within `(1+eps⁶)ⁿ − 1` of unit norm after any
+list of products (either side), inverses and retractions, `n` = number of retractions. -/
+theorem Sim3_history_valid (eps : ℝ) (h0 : 0 ≤ eps) (h1 : eps ≤ 1) (ops : List Sim3Op) (hops : ∀ op ∈ ops, op.ok)
+    (X : Sim3 ℝ) (hX : Sim3.Valid X) :
+    |(ops.foldl (Sim3Op.apply eps) X).q.normSq - 1|
+      ≤ (1 + eps ^ 6) ^ (ops.countP fun o => o.toH.isRetr) - 1 := by
+  rw [Sim3Op.fold_q]
+  have hq : SO3.Valid X.q := hX.1
+  have hok : ∀ o ∈ ops.map Sim3Op.toH, o.ok := by
+    intro o ho
+    rw [List.mem_map] at ho
+    obtain ⟨op, hop, rfl⟩ := ho
+    have := hops op hop
+    cases op <;> first | trivial | exact this.1
+  have := history_valid eps h0 h1 (ops.map Sim3Op.toH) hok X.q hq
+  rwa [List.countP_map] at this
+
+/-- **Scale stays positive over any Sim3 history** (exact arithmetic): products of positive scales, reciprocals
+and `exp σ` factors. -/
+theorem Sim3_history_scale_pos (eps : ℝ) (ops : List Sim3Op) (hops : ∀ op ∈ ops, op.ok) :
+    ∀ X : Sim3 ℝ, 0 < X.s → 0 < (ops.foldl (Sim3Op.apply eps) X).s := by
+  induction ops with
+  | nil => intro X h; exact h
+  | cons op rest ih =>
+    intro X hX
+    simp only [List.foldl_cons]
+    apply ih (fun o ho => hops o (by simp [ho]))
+    have hop := hops op (by simp)
+    cases op with
+    | mulL Y => exact mul_pos (hop : Sim3.Valid Y).2 hX
+    | mulR Y => exact mul_pos hX (hop : Sim3.Valid Y).2
+    | inv => simp only [Sim3Op.apply, Sim3Inv, k_real, Nat.cast_one]; exact one_div_pos.mpr hX
+    | retr a => exact Sim3_scale_retr_pos eps X hX a
+
 /-! ## Histories in *rounded* arithmetic
 
 `history_valid` is about exact arithmetic. The property says "up to accumulated round-off", so here the
@@ -302,54 +565,6 @@ after ANY number of operations: `(1−γ)^{2n} ≤ ‖X_n‖ ≤ (1+γ)^{2n}`, h
 linear growth, no blow-up. The per-step hypothesis is what the correspondence check measures on every
 step of every sampled history (γ = 8·eps of the dtype). -/
 
-noncomputable def Quat.nrm (p : Quat ℝ) : ℝ := Real.sqrt p.normSq
-def Quat.dist2 (p q : Quat ℝ) : ℝ := (p.x - q.x) ^ 2 + (p.y - q.y) ^ 2 + (p.z - q.z) ^ 2 + (p.w - q.w) ^ 2
-
-theorem Quat.normSq_nonneg' (p : Quat ℝ) : 0 ≤ p.normSq := by
-  unfold Quat.normSq; nlinarith [mul_self_nonneg p.x, mul_self_nonneg p.y, mul_self_nonneg p.z, mul_self_nonneg p.w]
-theorem Quat.dist2_nonneg (p q : Quat ℝ) : 0 ≤ Quat.dist2 p q := by unfold Quat.dist2; positivity
-theorem Quat.dist2_comm (p q : Quat ℝ) : Quat.dist2 p q = Quat.dist2 q p := by unfold Quat.dist2; ring
-theorem Quat.nrm_nonneg (p : Quat ℝ) : 0 ≤ p.nrm := Real.sqrt_nonneg _
-theorem Quat.nrm_mul (p q : Quat ℝ) : (p.mul q).nrm = p.nrm * q.nrm := by
-  unfold Quat.nrm; rw [Quat.normSq_mul, Real.sqrt_mul (Quat.normSq_nonneg' p)]
-theorem Quat.nrm_conj (p : Quat ℝ) : p.conj.nrm = p.nrm := by unfold Quat.nrm; rw [Quat.normSq_conj]
-
-/-- triangle inequality for the quaternion norm (Cauchy–Schwarz through Lagrange's identity) -/
-theorem Quat.nrm_le_add (p q : Quat ℝ) : p.nrm ≤ q.nrm + Real.sqrt (Quat.dist2 p q) := by
-  have hq := Quat.normSq_nonneg' q
-  have hd := Quat.dist2_nonneg p q
-  set r : Quat ℝ := ⟨p.x - q.x, p.y - q.y, p.z - q.z, p.w - q.w⟩ with hr
-  have hrn : r.normSq = Quat.dist2 p q := by simp only [hr, Quat.normSq, Quat.dist2]; ring
-  -- Cauchy–Schwarz
-  have cs : (q.x * r.x + q.y * r.y + q.z * r.z + q.w * r.w) ^ 2 ≤ q.normSq * r.normSq := by
-    unfold Quat.normSq
-    nlinarith [sq_nonneg (q.x * r.y - q.y * r.x), sq_nonneg (q.x * r.z - q.z * r.x), sq_nonneg (q.x * r.w - q.w * r.x),
-      sq_nonneg (q.y * r.z - q.z * r.y), sq_nonneg (q.y * r.w - q.w * r.y), sq_nonneg (q.z * r.w - q.w * r.z)]
-  have cs' : q.x * r.x + q.y * r.y + q.z * r.z + q.w * r.w ≤ q.nrm * Real.sqrt (Quat.dist2 p q) := by
-    have h1 := Real.abs_le_sqrt cs
-    rw [Real.sqrt_mul hq, hrn] at h1
-    exact le_trans (le_abs_self _) h1
-  unfold Quat.nrm at *
-  rw [Real.sqrt_le_iff]
-  refine ⟨by positivity, ?_⟩
-  have e : p.normSq = q.normSq + 2 * (q.x * r.x + q.y * r.y + q.z * r.z + q.w * r.w) + Quat.dist2 p q := by
-    simp only [hr, Quat.normSq, Quat.dist2]; ring
-  have s1 := Real.sq_sqrt hq
-  have s2 := Real.sq_sqrt hd
-  rw [e]
-  nlinarith [cs', s1, s2]
-
-/-- a computed value within relative distance `γ` of the exact one has a norm within `(1±γ)` of it -/
-theorem Quat.nrm_near (E X' : Quat ℝ) (γ : ℝ) (hγ : 0 ≤ γ) (h : Quat.dist2 X' E ≤ γ ^ 2 * E.normSq) :
-    (1 - γ) * E.nrm ≤ X'.nrm ∧ X'.nrm ≤ (1 + γ) * E.nrm := by
-  have hd : Real.sqrt (Quat.dist2 X' E) ≤ γ * E.nrm := by
-    unfold Quat.nrm
-    rw [← Real.sqrt_sq hγ, ← Real.sqrt_mul (sq_nonneg γ)]
-    exact Real.sqrt_le_sqrt h
-  have t1 := Quat.nrm_le_add X' E
-  have t2 := Quat.nrm_le_add E X'
-  rw [Quat.dist2_comm E X'] at t2
-  constructor <;> linarith
 
 /-- a near-unit operand -/
 def HOp.okR (γ : ℝ) : HOp → Prop
@@ -367,19 +582,6 @@ def Computed (eps γ : ℝ) : Quat ℝ → List (HOp × Quat ℝ) → Prop
 
 /-- the last stored state -/
 def lastState (X : Quat ℝ) (h : List (HOp × Quat ℝ)) : Quat ℝ := h.foldl (fun _ p => p.2) X
-
-theorem so3Exp_nrm_near (eps : ℝ) (h0 : 0 ≤ eps) (h1 : eps ≤ 1) (a : Vec3 ℝ) :
-    1 - eps ^ 6 ≤ (so3Exp eps a).nrm ∧ (so3Exp eps a).nrm ≤ 1 + eps ^ 6 := by
-  have hm := abs_le.mp (so3Exp_normSq_near eps a h0 h1)
-  have ht0 : 0 ≤ eps ^ 6 := by positivity
-  have ht1 : eps ^ 6 ≤ 1 := pow_le_one₀ h0 h1
-  unfold Quat.nrm
-  constructor
-  · apply Real.le_sqrt_of_sq_le
-    nlinarith
-  · rw [Real.sqrt_le_iff]
-    refine ⟨by linarith, ?_⟩
-    nlinarith
 
 /-- one exact operation changes the norm by a factor in `[1−γ, 1+γ]` -/
 theorem HOp.exact_nrm (eps γ : ℝ) (h0 : 0 ≤ eps) (h1 : eps ≤ 1) (heg : eps ^ 6 ≤ γ)
@@ -532,15 +734,16 @@ theorem SO3_valid_retr (eps : ℝ) (h0 : 0 ≤ eps) (X : Quat ℝ) (hX : SO3.Val
     SO3.Valid (SO3Retr eps X a) := by
   unfold SO3.Valid SO3Retr; rw [Quat.normSq_mul, so3Exp_normSq_closed eps a h0 ha, hX]; ring
 
-/-- scales stay positive under products, inverses and retractions (`exp σ > 0`) -/
-theorem RxSO3_scale_retr_pos (eps : ℝ) (X : RxSO3 ℝ) (hX : 0 < X.s) (a : rxso3 ℝ) :
-    0 < (RxSO3Retr eps X a).s := by
-  simp only [RxSO3Retr, RxSO3Mul, rxso3Exp, exp_real]; exact mul_pos (Real.exp_pos _) hX
-theorem Sim3_scale_retr_pos (eps : ℝ) (X : Sim3 ℝ) (hX : 0 < X.s) (a : sim3 ℝ) :
-    0 < (Sim3Retr eps X a).s := by
-  simp only [Sim3Retr, Sim3Mul, sim3Exp, rxso3Exp, exp_real]; exact mul_pos (Real.exp_pos _) hX
-
 /-! ### non-vacuity -/
+/-- a non-trivial computed history: non-identity start, a closed-form retraction by the angle π stored with a
+perturbation, then a product with a non-identity operand stored with a perturbation -/
+example : Computed (1/1000) (1/100) (⟨0.6, 0, 0, 0.8⟩ : Quat ℝ)
+    [(.retr ⟨Real.pi, 0, 0⟩, ⟨0.801, 0, 0, -0.6⟩), (.mulR ⟨0, 1, 0, 0⟩, ⟨0, -0.6, 0.801, 0⟩)] := by
+  refine ⟨trivial, ?_, ?_, ?_, trivial⟩
+  · simp only [HOp.apply, SO3Retr, so3Exp_pi_x, Quat.dist2]; lie_unfold; norm_num
+  · simp [HOp.okR, Quat.nrm, Quat.normSq]
+  · simp only [HOp.apply, Quat.dist2]; lie_unfold; norm_num
+
 example : SO3.Valid (⟨0.6, 0, 0, 0.8⟩ : Quat ℝ) := by unfold SO3.Valid; lie_unfold; norm_num
 example : Sim3.Valid (⟨⟨1, 2, 3⟩, ⟨0, 0.6, 0, 0.8⟩, 2⟩ : Sim3 ℝ) := by
   refine ⟨?_, by norm_num⟩; lie_unfold; norm_num
